@@ -41,6 +41,12 @@ class NNF(ast.NodeTransformer):
         return n
 
 
+def _flip_ok(e):
+    """evaluating e before or after the other operand makes no difference: names, constants, attribute / subscript chains and
+    arithmetic over them (no calls)"""
+    return not any(isinstance(x, (ast.Call, ast.NamedExpr, ast.Await, ast.Yield, ast.YieldFrom)) for x in ast.walk(e))
+
+
 def _truth_test(e):
     """an expression that yields True / False and has no effect: isinstance / hasattr tests, identity and membership comparisons of
     names, and their combinations"""
@@ -112,7 +118,9 @@ class Shape(ast.NodeTransformer):
 
     def visit_Compare(self, n):
         self.generic_visit(n)
-        if len(n.ops) == 1 and isinstance(n.ops[0], (ast.Gt, ast.GtE)):
+        if len(n.ops) == 1 and isinstance(n.ops[0], (ast.Gt, ast.GtE)) and \
+                (_flip_ok(n.left) or _flip_ok(n.comparators[0])):
+            # (the operands change places: at least one of them must be unable to notice - a name, a constant, an attribute chain)
             op = ast.Lt() if isinstance(n.ops[0], ast.Gt) else ast.LtE()
             return ast.copy_location(ast.Compare(left=n.comparators[0], ops=[op], comparators=[n.left]), n)
         return n
@@ -498,6 +506,29 @@ def unroll_constant_loops(tree):
     return tree
 
 
+def _leaks(tree, lp):
+    """a loop variable of lp is read outside the loop (a comprehension would not leave it bound): any Load of one of its target
+    names outside lp that is not inside another loop / comprehension binding the same name itself"""
+    tv = {x.id for x in ast.walk(lp.target) if isinstance(x, ast.Name)}
+    inside = {id(x) for x in ast.walk(lp)}
+    owner = None
+    for fn in ast.walk(tree):
+        if isinstance(fn, (ast.FunctionDef, ast.AsyncFunctionDef)) and any(x is lp for x in ast.walk(fn)):
+            owner = fn                  # the innermost one is visited last on the way down; any enclosing one is conservative enough
+    scope = owner if owner is not None else tree
+    rebinding = set()
+    for n in ast.walk(scope):
+        if isinstance(n, (ast.For, ast.AsyncFor)) and n is not lp and tv & {x.id for x in ast.walk(n.target) if isinstance(x, ast.Name)}:
+            rebinding |= {id(x) for x in ast.walk(n)}
+        if isinstance(n, (ast.ListComp, ast.SetComp, ast.DictComp, ast.GeneratorExp)) and \
+                tv & {x.id for g in n.generators for x in ast.walk(g.target) if isinstance(x, ast.Name)}:
+            rebinding |= {id(x) for x in ast.walk(n)}
+    for n in ast.walk(scope):
+        if isinstance(n, ast.Name) and n.id in tv and isinstance(n.ctx, ast.Load) and id(n) not in inside and id(n) not in rebinding:
+            return True
+    return False
+
+
 def loops_to_comprehensions(tree):
     """X = [] ; for T in IT: [if C:] X.append(E)   ->   X = [E for T in IT if C]      (X not used in IT / C / E, nothing between
        the two statements mentions X);  D = {} ; for T in IT: [if C:] D[K] = V  ->  D = {K: V for T in IT if C}"""
@@ -534,7 +565,8 @@ def loops_to_comprehensions(tree):
                         comp = ast.DictComp(key=b.targets[0].slice, value=b.value,
                                             generators=[ast.comprehension(target=lp.target, iter=lp.iter,
                                                                           ifs=[cond] if cond is not None else [], is_async=0)])
-                    if comp is not None and not mentions(lp.iter, x) and not (cond is not None and mentions(cond, x)):
+                    if comp is not None and not mentions(lp.iter, x) and not (cond is not None and mentions(cond, x)) and \
+                            not _leaks(tree, lp):
                         new = ast.copy_location(ast.Assign(targets=[ast.Name(id=x, ctx=ast.Store())], value=ast.copy_location(comp, lp)), lp)
                         new._from_loop = True
                         blk[j] = new
